@@ -3,6 +3,7 @@
 package main
 
 import (
+	"bytes"
 	"fmt"
 	"regexp"
 
@@ -14,7 +15,16 @@ import (
 
 var sgr = regexp.MustCompile("\x1b\\[[0-9;]*m")
 
+// same is the regex oracle "coloured rendering minus escape sequences = uncoloured rendering".
+// It is only meaningful when the text itself holds no ESC byte: text such as "\x1b[3" at the end
+// of one message and "m" at the start of the next forms a sequence in the uncoloured output that
+// the painter's own codes break up in the coloured one.  With ESC in the text the verdict is
+// left to the byte-for-byte comparison with the model (whose theorem is about the inserted
+// sequences, not about a regex).
 func same(a, b []byte) string {
+	if bytes.IndexByte(b, 0x1b) >= 0 {
+		return "same"
+	}
 	if string(sgr.ReplaceAll(a, nil)) == string(sgr.ReplaceAll(b, nil)) {
 		return "same"
 	}
